@@ -930,14 +930,19 @@ impl State {
         match x {
             Xfn::Native(x) => x.0(self),
             Xfn::Interp(x) => {
-                let return_to = self.ip();
+                // run the word alone: it returns to the end of the code, where the VM
+                // stops, not into the half-built program of the current source
+                let saved_ip = self.ip();
+                let return_to = self.code_origin();
                 self.push_return(Frame {
                     fn_addr: x,
                     return_to,
                     locals: Default::default(),
                 })?;
                 self.set_ip(x);
-                self.run()
+                let res = self.run();
+                self.set_ip(saved_ip);
+                res
             }
         }
     }
